@@ -95,6 +95,7 @@ def check_c10(idx: Index, tier: str, res: Result) -> None:
 
     # ---- both operands walk the same index ------------------------------------------------------
     nwalk = 0
+    walked = set()
     for cname in ("AdditionOperator", "SubtractionOperator", "MultiplicationOperator", "DivisionOperator",
                   "NumericalMultiplicationOperator"):
         fi = idx.func(OPS, "%s.term" % cname)
@@ -102,37 +103,111 @@ def check_c10(idx: Index, tier: str, res: Result) -> None:
             body = lp.body
             if len(body) == 1 and isinstance(body[0], ast.Assign) and isinstance(body[0].value, ast.Subscript):
                 nwalk += 1
+                walked.add(cname)
                 ok = src(lp.iter) == "self.index" and isinstance(lp.target, ast.Name) and src(body[0].value.slice) == lp.target.id \
                     and src(body[0].targets[0]) == src(body[0].value.value)
                 res.check("INDEXWALK", "%s: %s" % (cname, norm_stmt(lp)[:60]), ok, fi.loc(lp), fi.qual, norm_stmt(lp)[:100],
                           "an operand of the element-wise %s is not resolved with the operator's own index" % cname,
                           key="INDEXWALK/%s/%s" % (cname, norm_stmt(lp)[:60]))
-    res.floor("index walks in element-wise operators", nwalk, 13)
+    res.floor("element-wise operators whose term() walks the index", len(walked), 5)
 
     # ---- (b) guards of resolve_dimensions ------------------------------------------------------------
     rd = idx.func(OPS, "DotOperator.resolve_dimensions")
     term = idx.func(OPS, "DotOperator.term")
 
-    def guard_table(fi: FuncInfo) -> Dict[str, List[str]]:
-        """case -> list of normalised guard conditions that raise"""
-        out: Dict[str, List[str]] = {}
-        for n in walk_no_nested(fi.node):
-            if isinstance(n, ast.If) and any(isinstance(b, ast.Raise) for b in n.body):
-                anc = _ancestors(fi.node, n)
-                v1 = any(_is_vec_test(a.test) == "dim1" and inb for a, inb in anc)
-                v2 = any(_is_vec_test(a.test) == "dim2" and inb for a, inb in anc)
-                scalar = any(" ".join(src(a.test).split()) in ("dim1 == -1", "dim2 == -1") and inb for a, inb in anc)
-                if scalar:
-                    case = "scalar"
-                elif v1 and v2:
-                    case = "vv"
-                elif v1:
-                    case = "vm"
-                elif v2:
-                    case = "mv"
+    CASES = {"scalar": dict(S1=True, S2=True, V1=False, V2=False), "s1": dict(S1=True, S2=False, V1=False, V2=False),
+             "s2": dict(S1=False, S2=True, V1=False, V2=False), "vv": dict(S1=False, S2=False, V1=True, V2=True),
+             "vm": dict(S1=False, S2=False, V1=True, V2=False), "mv": dict(S1=False, S2=False, V1=False, V2=True),
+             "mm": dict(S1=False, S2=False, V1=False, V2=False)}
+
+    def case_paths(fi: FuncInfo, val: Dict[str, bool]):
+        """Paths of *fi* consistent with one shape case.  Case tests (dimX == -1, `len(dimX) == 1 or dimX[1] == 0`, boolean locals
+        and and/or/not of these) are decided by the valuation; a test whose body raises is a *guard* (recorded, then assumed to
+        pass); any other test forks.  Yields (guards, ('return', text) | ('raise',) | ('end',))."""
+        def evalb(e, env):
+            if isinstance(e, ast.Name):
+                return env.get(e.id)
+            v = _is_vec_test(e)
+            if v:
+                return val["V1" if v == "dim1" else "V2"]
+            t = " ".join(src(e).split())
+            for d, k in (("dim1", "S1"), ("dim2", "S2")):
+                if t in ("%s == -1" % d, "%s is -1" % d, "-1 == %s" % d):
+                    return val[k]
+                if t in ("%s != -1" % d, "%s is not -1" % d):
+                    return not val[k]
+            if isinstance(e, ast.BoolOp):
+                vs = [evalb(x, env) for x in e.values]
+                if isinstance(e.op, ast.And):
+                    if any(x is False for x in vs):
+                        return False
+                    return True if all(x is True for x in vs) else None
+                if any(x is True for x in vs):
+                    return True
+                return False if all(x is False for x in vs) else None
+            if isinstance(e, ast.UnaryOp) and isinstance(e.op, ast.Not):
+                x = evalb(e.operand, env)
+                return None if x is None else (not x)
+            return None
+
+        def run(stmts, env, guards, depth=0):
+            """returns list of (guards, outcome) for the paths through stmts; outcome None = falls through"""
+            if not stmts:
+                return [(guards, None, env)]
+            s0, rest = stmts[0], stmts[1:]
+            if isinstance(s0, ast.Return):
+                return [(guards, ("return", " ".join(src(s0.value).split()), s0), env)]
+            if isinstance(s0, ast.Raise):
+                return [(guards, ("raise",), env)]
+            if isinstance(s0, ast.Assign) and len(s0.targets) == 1 and isinstance(s0.targets[0], ast.Name):
+                v = evalb(s0.value, env)
+                env = dict(env)
+                if v is not None:
+                    env[s0.targets[0].id] = v
                 else:
-                    case = "mm"
-                out.setdefault(case, []).append(" ".join(src(n.test).split()))
+                    env.pop(s0.targets[0].id, None)
+                return run(rest, env, guards, depth)
+            if isinstance(s0, ast.If):
+                v = evalb(s0.test, env)
+                branches = []
+                if v is None and any(isinstance(x, ast.Raise) for x in s0.body):
+                    # a guard: record it; the accepted run continues on the other side
+                    g2 = guards + [(" ".join(src(s0.test).split()), s0)]
+                    branches = [(s0.orelse, g2)]
+                elif v is None:
+                    branches = [(s0.body, guards), (s0.orelse, guards)]
+                else:
+                    branches = [(s0.body if v else s0.orelse, guards)]
+                out = []
+                for blk, g in branches:
+                    for gg, oc, e2 in run(list(blk), env, g, depth + 1):
+                        if oc is None:
+                            out += run(rest, e2, gg, depth)
+                        else:
+                            out.append((gg, oc, e2))
+                return out[:64]
+            if isinstance(s0, (ast.For, ast.While, ast.With, ast.Try)):
+                # bodies are walked for guards/returns; a loop may also run zero times
+                inner = run(list(s0.body), env, guards, depth + 1)
+                out = []
+                for gg, oc, e2 in inner:
+                    if oc is None or isinstance(s0, (ast.For, ast.While)):
+                        out += run(rest, env, gg, depth)
+                    if oc is not None:
+                        out.append((gg, oc, e2))
+                return out[:64]
+            return run(rest, env, guards, depth)
+        return [(g, oc) for g, oc, _ in run(list(fi.node.body), {}, [])]
+
+    def guard_table(fi: FuncInfo) -> Dict[str, List[str]]:
+        out: Dict[str, List[str]] = {}
+        for case, val in CASES.items():
+            seen_g = []
+            for guards, oc in case_paths(fi, val):
+                for g, _node in guards:
+                    if g not in seen_g:
+                        seen_g.append(g)
+            out[case if case not in ("s1", "s2") else "scalar-mixed"] = out.get(case if case not in ("s1", "s2") else "scalar-mixed", []) + seen_g
         return out
     g_rd = guard_table(rd)
     g_term = guard_table(term)
@@ -153,21 +228,21 @@ def check_c10(idx: Index, tier: str, res: Result) -> None:
             res.check("GUARDS", "term() guard for %s agrees with resolve_dimensions" % case, g in accepted, term.loc(), term.qual, g,
                       "DotOperator.term guards the %s case with '%s' while resolve_dimensions requires %s" % (case, g, sorted(accepted)),
                       key="GUARDS/term/%s/%s" % (case, g))
-    res.check("GUARDS", "value . value is rejected", "dim2 == -1" in g_rd.get("scalar", []), rd.loc(), rd.qual,
-              "; ".join(g_rd.get("scalar", [])), "a dot product of two plain values is not rejected", key="GUARDS/resolve_dimensions/scalar")
+    sc_paths = case_paths(rd, CASES["scalar"])
+    res.check("GUARDS", "value . value is rejected", bool(sc_paths) and all(oc == ("raise",) for _, oc in sc_paths), rd.loc(), rd.qual,
+              "; ".join(str(oc[:2]) for _, oc in sc_paths)[:120], "a dot product of two plain values is not rejected", key="GUARDS/resolve_dimensions/scalar")
     # result dimensions
     rets = []
-    for n in walk_no_nested(rd.node):
-        if isinstance(n, ast.Return):
-            anc = _ancestors(rd.node, n)
-            v1 = any(_is_vec_test(a.test) == "dim1" and inb for a, inb in anc)
-            v2 = any(_is_vec_test(a.test) == "dim2" and inb for a, inb in anc)
-            s1 = any(" ".join(src(a.test).split()) == "dim1 == -1" and inb for a, inb in anc)
-            s2 = any(" ".join(src(a.test).split()) == "dim2 == -1" and inb for a, inb in anc)
-            case = "s1" if s1 else "s2" if s2 else "vv" if (v1 and v2) else "vm" if v1 else "mv" if v2 else "mm"
-            rets.append((case, " ".join(src(n.value).split()), n))
+    for case, val in CASES.items():
+        if case == "scalar":
+            continue
+        for guards, oc in case_paths(rd, val):
+            if oc and oc[0] == "return":
+                rets.append((case, oc[1], oc[2]))
     WANT = {"s1": "dim2", "s2": "dim1", "vv": "-1", "vm": "[dim2[1]]", "mv": "[dim1[0]]", "mm": "[dim1[0], dim2[1]]"}
-    got = {c: v for c, v, _ in rets}
+    got: Dict[str, str] = {}
+    for c, v, _ in rets:
+        got[c] = v if got.get(c, v) == v else "%s | %s" % (got[c], v)
     for case, want in WANT.items():
         res.check("GUARDS", "result dimensions of case %s = %s" % (case, want), got.get(case) == want, rd.loc(), rd.qual,
                   "return %s" % got.get(case), "resolve_dimensions answers %s for the %s case, numpy's result shape is %s"
